@@ -46,12 +46,12 @@ CATALOGUE = [
     ("empty_branch_not_removed", S + "token.py", '        string = string.replace("(.)", "")\n', "", ["C05", "C06"]),
     ("descriptor_not_removed_after_attach", S + "mol_gen.py", "        del other_bond_descriptors[other_bond_idx]\n", "", ["C04", "C06"]),
     ("sz_params_swapped", S + "distribution.py", "        self._Mw, self._Mn = make_tuple(self._raw_text[len(\"schulz_zimm\") :])",
-     "        self._Mn, self._Mw = make_tuple(self._raw_text[len(\"schulz_zimm\") :])", ["C09", "C10", "C11", "C13", "C14", "C20"]),
-    ("lognormal_mean_shift", S + "distribution.py", "(np.log(m / M) + np.log(D) / 2) ** 2", "(np.log(m / M) - np.log(D) / 2) ** 2", ["C09", "C10", "C11", "C13", "C14", "C20"]),
+     "        self._Mn, self._Mw = make_tuple(self._raw_text[len(\"schulz_zimm\") :])", ["C09", "C10", "C11", "C13", "C14", "C16", "C20"]),
+    ("lognormal_mean_shift", S + "distribution.py", "(np.log(m / M) + np.log(D) / 2) ** 2", "(np.log(m / M) - np.log(D) / 2) ** 2", ["C09", "C10", "C11", "C13", "C14", "C16", "C20"]),
     ("gauss_sigma_as_variance", S + "distribution.py", "stats.norm(loc=self._mu, scale=self._sigma)", "stats.norm(loc=self._mu, scale=np.sqrt(self._sigma))", ["C09"]),
     ("poisson_truncated_mean", S + "distribution.py", "        self._N = float(self._raw_text[len(\"poisson\") + 1 : -1])",
-     "        self._N = float(int(float(self._raw_text[len(\"poisson\") + 1 : -1])))", ["C09", "C10", "C11", "C13", "C14", "C20"]),
-    ("uniform_scale_is_high", S + "distribution.py", "stats.uniform(loc=self._low, scale=(self._high - self._low))", "stats.uniform(loc=self._low, scale=self._high)", ["C09", "C10", "C11", "C13", "C14", "C20"]),
+     "        self._N = float(int(float(self._raw_text[len(\"poisson\") + 1 : -1])))", ["C09", "C10", "C11", "C13", "C14", "C16", "C20"]),
+    ("uniform_scale_is_high", S + "distribution.py", "stats.uniform(loc=self._low, scale=(self._high - self._low))", "stats.uniform(loc=self._low, scale=self._high)", ["C09", "C10", "C11", "C13", "C14", "C16", "C20"]),
     ("flory_pmf_exponent", S + "distribution.py", "a**2 * k * (1 - a) ** (k - 1)", "a**2 * k * (1 - a) ** k", ["C11", "C09"]),
     ("interval_uses_pdf", S + "distribution.py",
      "            return self._distribution.cdf(mw.value) - self._distribution.cdf(mw.previous)\n",
@@ -68,6 +68,15 @@ CATALOGUE = [
      "        _global_smarts_rule_file = smarts_filename\n        _global_nonbonded_itp_file = nb_filename\n        _global_assignment_class = SMARTS_ASSIGNMENTS(smarts_filename, nb_filename)\n", ["C20"]),
     ("ff_partial_not_refused", S + "mol_gen.py", "        if not self.fully_generated:\n            raise RuntimeError(\n                \"Forcefield assignment is only possible for fully generated molecules\"\n            )\n", "", ["C20"]),
     ("ff_completeness_check_dropped", S + "forcefield_helper.py", "        if len(final_dict) != mol.GetNumAtoms():\n            raise FfAssignmentError(final_dict)\n", "", ["C20"]),
+    ("graph_prob_normalised_over_all", S + "molecule.py", "G.add_edge(graph_bd, element_bd, prob=element_bd.weight / repeat_weight)",
+     "G.add_edge(graph_bd, element_bd, prob=element_bd.weight / (repeat_weight + end_weight))", ["C16"]),
+    ("graph_term_prob_uniform", S + "molecule.py", "graph_bd, element_bd, term_prob=element_bd.weight / end_weight",
+     "graph_bd, element_bd, term_prob=1.0 / max(1, len(element.end_tokens))", ["C16"]),
+    ("graph_list_prob_unnormalised", S + "molecule.py", "                prob = graph_bd.transitions / graph_bd.weight\n",
+     "                prob = graph_bd.transitions / max(graph_bd.transitions)\n", ["C16"]),
+    ("graph_trans_ignores_left_terminal_compat", S + "molecule.py",
+     "                            graph_bd.is_compatible(other_bd)\n                            and other_bd.is_compatible(next_element.left_terminal)\n                            and bond_descriptors[other_bd] in next_element.repeat_tokens\n                        ):\n                            G.add_edge(\n                                graph_bd, other_bd, trans_prob=other_bd.weight / total_weight\n                            )\n\n                if isinstance(element, Stochastic) and isinstance(next_element, SmilesToken):",
+     "                            graph_bd.is_compatible(other_bd)\n                            and bond_descriptors[other_bd] in next_element.repeat_tokens\n                        ):\n                            G.add_edge(\n                                graph_bd, other_bd, trans_prob=other_bd.weight / total_weight\n                            )\n\n                if isinstance(element, Stochastic) and isinstance(next_element, SmilesToken):", ["C16"]),
     ("premature_end_ignored_weight", S + "stochastic.py",
      "                if len(my_mol.bond_descriptors) == 0:", "                if len(my_mol.bond_descriptors) <= 1 and str(self.right_terminal) == \"[]\":", ["C07", "C06"]),
 ]
@@ -106,7 +115,7 @@ def run_one(entry, runs, all_props=False, out=sys.stdout):
         shutil.copytree(os.path.join("/repo", "src"), os.path.join(tmp, "src"), ignore=shutil.ignore_patterns("__pycache__", "*.egg-info"))
         apply(entry, tmp)
         results = {}
-        check_props = props if not all_props else ["C04", "C05", "C06", "C07", "C08", "C09", "C10", "C11", "C13", "C14", "C20"]
+        check_props = props if not all_props else ["C04", "C05", "C06", "C07", "C08", "C09", "C10", "C11", "C13", "C14", "C16", "C20"]
         for pid in check_props:
             env = dict(os.environ)
             env.update({"GBSIM_REPO": tmp, "GBSIM_RUNS": str(runs), "PYTHONHASHSEED": "0", "GBSIM_EVIDENCE_DIR": os.path.join(tmp, "ev"),
